@@ -7,6 +7,7 @@ import (
 	"io"
 	"math/big"
 	"strings"
+	"testing/iotest"
 
 	"github.com/taurusgroup/multi-party-sig/internal/zzverif/ref"
 	"github.com/taurusgroup/multi-party-sig/internal/zzverif/vkit"
@@ -224,6 +225,28 @@ func evalECDSA(tc *tcase) (out []finding, info string) {
 		out = append(out, finding{fmt.Sprintf("ecdsa-verify|lib=%v ref=%v|%s", libV, refV, tc.Pert),
 			fmt.Sprintf("Q=%s R=%s s=%s hash=%s", tc.Q, tc.R, tc.S, tc.Hash)})
 	}
+	// history: the same key and nonce-point OBJECTS after they have been used by the accessors that normalise a
+	// point in place (Equal, XScalar, XBytes, HasEvenY, IsIdentity, MarshalBinary): the verdict must not change
+	var libV2 bool
+	if p, msg, frame := vkit.Try(func() {
+		for _, pt := range []curve.Point{X, sig.R} {
+			_ = pt.Equal(pt)
+			_ = pt.XScalar()
+			_ = pt.IsIdentity()
+			if sp, ok := pt.(*curve.Secp256k1Point); ok {
+				_ = sp.XBytes()
+				_ = sp.HasEvenY()
+			}
+			_, _ = pt.MarshalBinary()
+		}
+		libV2 = sig.Verify(X, h)
+	}); p {
+		return append(out, panicFinding(tc, msg, frame)), "panic"
+	}
+	if libV2 != refV && libV == refV {
+		out = append(out, finding{fmt.Sprintf("ecdsa-verify|after-use lib=%v ref=%v|%s", libV2, refV, tc.Pert),
+			fmt.Sprintf("verdict changes once the key / nonce point objects have been through Equal, XScalar, XBytes, HasEvenY: Q=%s R=%s s=%s hash=%s", tc.Q, tc.R, tc.S, tc.Hash)})
+	}
 	return
 }
 
@@ -334,6 +357,26 @@ func evalBIPSign(tc *tcase) (out []finding, info string) {
 	}
 	want, rerr := ref.BIP340Sign(sk, msg, aux)
 	info = fmt.Sprintf("lib sig=%x err=%v; ref sig=%x err=%v", []byte(sig), err, want, rerr)
+	// legal readers that do not fill the buffer in one call (one byte at a time; the last data together with
+	// io.EOF): the auxiliary randomness is the 32 bytes the reader delivers, however it delivers them
+	if !tc.NilRand && len(aux) == 32 {
+		for name, mk := range map[string]func() io.Reader{
+			"one byte per read": func() io.Reader { return iotest.OneByteReader(bytes.NewReader(aux)) },
+			"half reads":        func() io.Reader { return iotest.HalfReader(bytes.NewReader(aux)) },
+			"data with EOF":     func() io.Reader { return iotest.DataErrReader(bytes.NewReader(aux)) },
+		} {
+			var s2 taproot.Signature
+			var e2 error
+			if p, m, frame := vkit.Try(func() { s2, e2 = taproot.SecretKey(sk).Sign(mk(), msg) }); p {
+				return []finding{panicFinding(tc, m, frame)}, "panic"
+			}
+			if (e2 == nil) != (err == nil) || !bytes.Equal(s2, sig) {
+				out = append(out, finding{"bip340-sign|" + tc.Pert + "|depends on how the reader delivers the 32 auxiliary bytes",
+					fmt.Sprintf("reader %q: sig=%x err=%v; bytes.Reader: sig=%x err=%v", name, []byte(s2), e2, []byte(sig), err)})
+				break
+			}
+		}
+	}
 	if (err == nil) != (rerr == nil) {
 		return []finding{{fmt.Sprintf("bip340-sign|%s|lib ok=%v ref ok=%v", tc.Pert, err == nil, rerr == nil), info}}, info
 	}
